@@ -32,7 +32,7 @@ fn scale(c: u8) -> u8 {
     (c << 2) | (c >> 4)
 }
 
-fn gen_packets(rng: &mut Rng, kind: u16, case: u64) -> Vec<(u8, Vec<[u8; 3]>)> {
+pub fn gen_packets(rng: &mut Rng, kind: u16, case: u64) -> Vec<(u8, Vec<[u8; 3]>)> {
     let col = |rng: &mut Rng| -> [u8; 3] {
         if kind == 0x11 {
             [rng.u8() & 63, rng.u8() & 63, rng.u8() & 63]
